@@ -436,7 +436,13 @@ func execC20(x *Ctx, sc *wire.Scenario) *wire.Result {
 					same = a[i] == b[i]
 				}
 				if !same {
-					return violation(res, "LAYOUT", "C20.signal-alone-leaves-the-screen-as-it-was", name("screen:differs-from-the-undisturbed-run"),
+					cls := "screen:differs-from-the-undisturbed-run"
+					if strings.Contains(lastW.Line, "\n") {
+						// (the engine's row bookkeeping for buffers with embedded newlines -- C04's listed multi-line
+						// classes -- as the watcher's redisplay meets it)
+						cls += ":buffer-of-several-lines"
+					}
+					return violation(res, "LAYOUT", "C20.signal-alone-leaves-the-screen-as-it-was", name(cls),
 						fmt.Sprintf("disturbances %v (signals only, the terminal kept its size): at the input wait after %d keys the screen is %q; the undisturbed run has %q", firedList, lastW.Tokens, b, a))
 				}
 				res.Counters["frames_compared_with_the_undisturbed_run"]++
